@@ -7,7 +7,7 @@ import pktgen, scen, compare as CMP
 class Prop(PropBase):
     pid = 'C10'
     kernels = []
-    vo_targets = ['Props/Properties_C10.vo', 'Proofs/QueueInv.vo', 'Model/Queue.vo']
+    vo_targets = ['Props/Properties_C10.vo', 'Proofs/QueueInv.vo', 'Proofs/QueueProgress.vo', 'Model/Queue.vo']
     prop_files = ['Props/Properties_C10.v']
     harness_variants = ['asan', 'tsan']
     rule = ('the real LidarDriverImpl / SyncQueue with real threads (RAW_PACKET input): 1..4 feeding threads calling decodePacket with tagged packets while the decoding thread runs, fast and slow consumers '
@@ -17,10 +17,10 @@ class Prop(PropBase):
             'model state with the same buffer, size and payload; the payload and byte-integrity the packet callback saw must be the model\'s; ThreadSanitizer runs of the same scenarios without the recording; '
             'non-trivial = run with >= 2 producers or an overflow or a slow consumer')
     explanation = ('C10_T1..T6 (Coq: for every schedule of n producers and the decoding thread - exclusive buffer ownership, decode order = arrival order / at most once / bytes intact, exact accounting of every packet, '
-                   'drops only by a reported clear after a push saw > 1024 pending, clear drops the whole backlog, everything decoded once drained, no lost wake-up) + trace conformance of the real code to the model')
+                   'drops only by a reported clear after a push saw > 1024 pending, clear drops the whole backlog, everything decoded once drained, no lost wake-up, progress: the decoding thread alone drains any reachable state) + trace conformance of the real code to the model')
     assumptions = ['the hook events are emitted inside the critical section they describe (sync_queue.hpp), so their recorded order is the linearisation order of each queue',
                    'the memcpy / recvfrom into a buffer happens between packetGet and the push in the input code (read from the source; not hooked)',
-                   'liveness (the decoder eventually runs) is not part of the model; the no-lost-wake-up invariant is']
+                   'fairness of the real scheduler (that the decoding thread eventually runs) is not modelled; C10_T7 shows that whenever it runs nothing can block it']
     projection = {}
     impl_timeout = 3000
     trusted_extra = ['OCaml trace validator ocaml/qv.ml (maps hook events to model actions; ~170 lines)']
